@@ -74,7 +74,8 @@ def run(tier):
         a = int(rng.randint(-3, 2))
         prob = dp.gen_problem(rng, rows=win + 3 + k % 3, cols=win + 7 + k % 4, win=win, s=s, measure=measure, disp=(a, a + int(rng.randint(0, 4))),
                               vmax=3 if measure != "zncc" else 2, mask_mode=["none", "left", "right", "both"][k % 4],
-                              nbands=1 if k % 5 else 2)
+                              nbands=1 if k % 5 else 2,
+                              conv=None if k % 3 else (dp.CONVENTIONS[(k // 3) % 5], dp.CONVENTIONS[(k // 3 + 1 + k % 2) % 5]))
         steps = gen_pipe(rng, prob)
         cfg = {"pipeline": {nm: dict(c) for nm, c in steps}}
         feat = {"measure": measure, "win": win, "subpix": s, "pipeline": [nm for nm, _ in steps],
